@@ -17,6 +17,7 @@ Inductive ty :=
 | TList (t: ty) | TSet (t: ty)
 | TWrap (t: ty)                 (* unwrap-and-redispatch wrappers: Final[t], NewType(.., t), Required/NotRequired/ReadOnly[t] *)
 | TDict (v: ty)                 (* Dict[str, v] *)
+| TMap (k v: ty)                (* Dict / Mapping / OrderedDict / DefaultDict[k, v]; Counter[k] = TMap k int; ChainMap = list of it *)
 | TTuple (ts: list ty)          (* Tuple[t1, .., tn]; [] is Tuple[()] *)
 | TUnion (ts: list ty)          (* Union[...] / Optional[...] as flattened by typing *)
 | TClass (c: string)            (* a dataclass of the class table *)
@@ -121,6 +122,7 @@ Fixpoint resolve_ty (dial conf: list (string * ov)) (t: ty) {struct t} : ty :=
     | TSet a => TSet (resolve_ty dial conf a)
     | TWrap a => TWrap (resolve_ty dial conf a)
     | TDict a => TDict (resolve_ty dial conf a)
+    | TMap k a => TMap (resolve_ty dial conf k) (resolve_ty dial conf a)
     | TTuple ts => TTuple (map (resolve_ty dial conf) ts)
     | TUnion ts => TUnion (map (resolve_ty dial conf) ts)
     | TNamed a n ts d => TNamed a n (map (resolve_ty dial conf) ts) d
@@ -233,8 +235,8 @@ Definition tuple_sk (prefix: list js) : sk :=
   | _ => let n := Z.of_nat (List.length prefix) in
          mk_sk None (Some "array") None None None None None None None None None None None None (Some prefix) None None (Some n) (Some n) None None
   end.
-Definition dict_sk (addl: option js) : sk :=
-  mk_sk None (Some "object") None None None None None None None None None None addl (Some (render (ty_sk "string"))) None None None None None None None.
+Definition dict_sk (addl pn: option js) : sk :=
+  mk_sk None (Some "object") None None None None None None None None None None addl pn None None None None None None None.
 Definition union_sk (l: list js) : sk :=
   mk_sk None None None None None None None (Some l) None None None None None None None None None None None None None.
 Definition ref_sk (r: string) : sk :=
@@ -354,7 +356,14 @@ Section Gen.
           | SFuel => SFuel | SErr => SErr end
       | TDict a => fun st =>
           match on_ty a st with
-          | SOk (s, st1) => SOk (dict_sk (or_none a s), st1)
+          | SOk (s, st1) => SOk (dict_sk (or_none a s) (Some (render (ty_sk "string"))), st1)
+          | SFuel => SFuel | SErr => SErr end
+      | TMap k a => fun st =>      (* keyword arguments are evaluated in order: additionalProperties (value type) first *)
+          match on_ty a st with
+          | SOk (s, st1) =>
+              match on_ty k st1 with
+              | SOk (sk', st2) => SOk (dict_sk (or_none a s) (or_none k sk'), st2)
+              | SFuel => SFuel | SErr => SErr end
           | SFuel => SFuel | SErr => SErr end
       | TTuple ts => fun st =>
           match map_st on_ty ts [] st with
@@ -430,6 +439,7 @@ End Gen.
 Fixpoint classes_of (t: ty) : list string :=
   match t with
   | TList a | TSet a | TDict a | TWrap a => classes_of a
+  | TMap k a => (classes_of a ++ classes_of k)%list
   | TTuple ts | TUnion ts | TNamed _ _ ts _ | TTyped _ ts _ => (fix go (l: list ty) := match l with [] => [] | x :: r => (classes_of x ++ go r)%list end) ts
   | TClass c => [c]
   | _ => []
@@ -439,6 +449,7 @@ Fixpoint classes_of (t: ty) : list string :=
 Fixpoint ty_ok (t: ty) : bool :=
   match t with
   | TList a | TSet a | TDict a | TWrap a => ty_ok a
+  | TMap k a => ty_ok a && ty_ok k
   | TTuple ts => (fix go (l: list ty) := match l with [] => true | x :: r => ty_ok x && go r end) ts
   | TUnion ts => match ts with [] => false | _ => (fix go (l: list ty) := match l with [] => true | x :: r => ty_ok x && go r end) ts end
   | TNamed _ names ts _ =>
